@@ -65,7 +65,14 @@ pub fn check_roundtrip(rep: &mut Rep, c: i128, s: TimeScale) {
     match guard(|| serde_json::to_string(&e).map_err(|x| x.to_string())) {
         Err(p) => rep.fail(&format!("serde/panic/{}", p.class()), None, || format!("serialising Epoch({},{:?}) panicked {}", c, s, p.msg)),
         Ok(Err(x)) => rep.fail("serde/ser-err", None, || x),
-        Ok(Ok(js)) => same(rep, "serde", &js, guard(|| serde_json::from_str::<Epoch>(&js).map_err(|x| x.to_string())), c, s),
+        Ok(Ok(js)) => {
+            same(rep, "serde", &js, guard(|| serde_json::from_str::<Epoch>(&js).map_err(|x| x.to_string())), c, s);
+            // the other deserialisation routes of the same serialized form (owned Value, reader, escaped text)
+            same(rep, "serde-from_value", &js, guard(|| serde_json::to_value(e).and_then(serde_json::from_value::<Epoch>).map_err(|x| x.to_string())), c, s);
+            same(rep, "serde-from_reader", &js, guard(|| serde_json::from_reader::<_, Epoch>(js.as_bytes()).map_err(|x| x.to_string())), c, s);
+            let esc = js.replace(' ', "\\u0020").replace('T', "\\u0054");
+            same(rep, "serde-escaped", &esc, guard(|| serde_json::from_str::<Epoch>(&esc).map_err(|x| x.to_string())), c, s);
+        }
     }
     if s == TimeScale::UTC {
         rep.class("rt/rfc3339");
